@@ -143,6 +143,10 @@ func mergeVal(c *T, a, b Value) (Value, bool) {
 		if y, ok := b.(MapV); ok && x.id == y.id {
 			return x, true
 		}
+	case DeferV:
+		if y, ok := b.(DeferV); ok && len(x.list) == len(y.list) {
+			return x, true
+		}
 	case ClosureV:
 		if y, ok := b.(ClosureV); ok && x.fn == y.fn {
 			return mergeVals(c, x.bind, y.bind, func(f []Value) Value { return ClosureV{x.fn, f} })
